@@ -470,7 +470,12 @@ def _k(v):
 def check_load(ctx, job, schema, tree, prior, route, key):
     import cincoconfig as cc
     cfg, st0 = make_prior(schema, prior)
-    model, rej = apply_tree(st0, tree)
+    seen_tree = tree
+    if route != "load_tree":
+        # the loader sees the keys in the order the document has them (YAML writes maps sorted): model that order
+        fmt0 = route.split("/")[1]
+        seen_tree = cc.ConfigFormat.get(fmt0).loads(None, cc.ConfigFormat.get(fmt0).dumps(None, tree))
+    model, rej = apply_tree(st0, seen_tree)
     want, reasons = verdict(model, rej, new_items="items" in tree)
     del LOG[:]
     ctx.transitions += 1
